@@ -64,6 +64,50 @@ theorem under_join_index (root f ix : Str) (hf : isAbs f = true) (hu : Under roo
   rw [normpath_abs_components f hf] at this
   exact this.trans (List.prefix_append _ _)
 
+theorem serveChecked_paths (fs : Str → Kind) (f ix : Str) :
+    ∀ a ∈ (serveChecked fs f ix).accesses, isAbs f = true ∧ (a.path = f ∨ a.path = join f ix) := by
+  intro a ha
+  unfold serveChecked at ha
+  cases h1 : attempt fs f with
+  | valueError => simp [h1] at ha
+  | served acc =>
+    obtain ⟨hf, hp⟩ := attempt_served fs f acc h1
+    simp only [h1] at ha
+    exact ⟨hf, .inl (hp a ha)⟩
+  | notFound acc =>
+    obtain ⟨hf, hp⟩ := attempt_notFound fs f acc h1
+    simp only [h1] at ha
+    by_cases hix : ix = []
+    · simp only [hix, if_true] at ha
+      exact ⟨hf, .inl (hp a ha)⟩
+    · simp only [hix, if_false] at ha
+      cases h2 : attempt fs (join f ix) with
+      | valueError => simp only [h2] at ha; exact ⟨hf, .inl (hp a ha)⟩
+      | served acc2 =>
+        obtain ⟨_, hp2⟩ := attempt_served fs _ acc2 h2
+        simp only [h2, List.mem_append] at ha
+        rcases ha with ha | ha
+        · exact ⟨hf, .inl (hp a ha)⟩
+        · exact ⟨hf, .inr (hp2 a ha)⟩
+      | notFound acc2 =>
+        obtain ⟨_, hp2⟩ := attempt_notFound fs _ acc2 h2
+        simp only [h2, List.mem_append] at ha
+        rcases ha with ha | ha
+        · exact ⟨hf, .inl (hp a ha)⟩
+        · exact ⟨hf, .inr (hp2 a ha)⟩
+
+theorem serveChecked_outcome (fs : Str → Kind) (f ix : Str) :
+    (serveChecked fs f ix).outcome ≠ .forbidden ∧ (serveChecked fs f ix).outcome ≠ .passThrough := by
+  unfold serveChecked
+  cases attempt fs f with
+  | valueError => simp
+  | served acc => simp
+  | notFound acc =>
+    by_cases hix : ix = []
+    · simp [hix]
+    · simp only [hix, if_false]
+      cases attempt fs (join f ix) <;> simp
+
 /-- **C11, static part.**  Every path `staticdir` hands to `stat`/`open` — the joined file
     name and the index fallback below it — is lexically at or below the configured directory,
     for every dir, root, section, request path, unquote function and file-system answer. -/
@@ -73,52 +117,252 @@ theorem C11_static_contained (unq : Str → Str) (fs : Str → Kind) (i : Static
       ∃ dir, staticDir i = some dir ∧ Under dir a.path := by
   intro a ha
   unfold staticdir at ha
-  split at ha
-  · simp at ha
-  · split at ha
-    · simp at ha
-    · split at ha
-      · simp at ha
-      · rename_i dir hdir
-        refine ⟨dir, hdir, ?_⟩
-        simp only at ha
-        split at ha
-        · simp at ha
-        · rename_i hchk
+  by_cases hm : i.method ≠ strGET ∧ i.method ≠ strHEAD
+  · simp [hm] at ha
+  · simp only [hm, if_false] at ha
+    by_cases hmo : i.matchOk = false
+    · simp [hmo] at ha
+    · simp only [hmo] at ha
+      cases hd : staticDir i with
+      | none => simp [hd] at ha
+      | some dir =>
+        refine ⟨dir, rfl, ?_⟩
+        simp only [hd] at ha
+        by_cases hchk : containedCheck (normpath dir) (normpath (join dir (staticBranch unq i))) = false
+        · simp [hchk] at ha
+        · simp only [hchk] at ha
           have hchk' : containedCheck (normpath dir)
               (normpath (join dir (staticBranch unq i))) = true := by simpa using hchk
-          have hpre := containedCheck_components _ _ hchk'
-          -- `components (normpath dir)` : normpath is idempotent
-          have hfile : ∀ (hf : isAbs (join dir (staticBranch unq i)) = true),
-              Under dir (join dir (staticBranch unq i)) := by
-            intro hf
-            refine under_of_abs dir _ hf ?_
-            exact hpre
-          split at ha
-          · simp at ha
-          · rename_i acc hatt
-            obtain ⟨hf, hp⟩ := attempt_served fs _ acc hatt
-            simp only at ha
-            rw [hp a ha]; exact hfile hf
-          · rename_i acc hatt
-            obtain ⟨hf, hp⟩ := attempt_notFound fs _ acc hatt
-            split at ha
-            · simp only at ha
-              rw [hp a ha]; exact hfile hf
-            · split at ha
-              · simp only at ha
-                rw [hp a ha]; exact hfile hf
-              · rename_i acc2 hatt2
-                obtain ⟨_, hp2⟩ := attempt_served fs _ acc2 hatt2
-                simp only [List.mem_append] at ha
-                rcases ha with ha | ha
-                · rw [hp a ha]; exact hfile hf
-                · rw [hp2 a ha]; exact under_join_index dir _ _ hf (hfile hf) hix
-              · rename_i acc2 hatt2
-                obtain ⟨_, hp2⟩ := attempt_notFound fs _ acc2 hatt2
-                simp only [List.mem_append] at ha
-                rcases ha with ha | ha
-                · rw [hp a ha]; exact hfile hf
-                · rw [hp2 a ha]; exact under_join_index dir _ _ hf (hfile hf) hix
+          obtain ⟨hf, hp⟩ := serveChecked_paths fs _ _ a ha
+          have hfile : Under dir (join dir (staticBranch unq i)) :=
+            under_of_abs dir _ hf (containedCheck_components _ _ hchk')
+          rcases hp with hp | hp
+          · rw [hp]; exact hfile
+          · rw [hp]; exact under_join_index dir _ _ hf hfile hix
+
+/-- **C11, refusals.**  A request `staticdir` refuses (403), cannot serve for lack of an
+    absolute directory (ValueError) or passes on (method / match) touches nothing at all. -/
+theorem C11_refused_untouched (unq : Str → Str) (fs : Str → Kind) (i : StaticIn)
+    (h : (staticdir unq fs i).outcome = .forbidden ∨ (staticdir unq fs i).outcome = .passThrough ∨
+      staticDir i = none) :
+    (staticdir unq fs i).accesses = [] := by
+  unfold staticdir at h ⊢
+  by_cases hm : i.method ≠ strGET ∧ i.method ≠ strHEAD
+  · simp [hm]
+  · simp only [hm, if_false] at h ⊢
+    by_cases hmo : i.matchOk = false
+    · simp [hmo]
+    · simp only [hmo] at h ⊢
+      cases hd : staticDir i with
+      | none => simp
+      | some dir =>
+        simp only [hd] at h ⊢
+        by_cases hchk : containedCheck (normpath dir) (normpath (join dir (staticBranch unq i))) = false
+        · simp [hchk]
+        · exfalso
+          simp only [hchk] at h
+          have := serveChecked_outcome fs (join dir (staticBranch unq i)) i.index
+          rcases h with h | h | h
+          · exact this.1 h
+          · exact this.2 h
+          · cases h
+
+/-- The refusal is exact: a request is refused precisely when the test fails. -/
+theorem static_forbidden_iff (unq : Str → Str) (fs : Str → Kind) (i : StaticIn) (dir : Str)
+    (hm : i.method = strGET ∨ i.method = strHEAD) (hmo : i.matchOk = true)
+    (hd : staticDir i = some dir) :
+    (staticdir unq fs i).outcome = .forbidden ↔
+      containedCheck (normpath dir) (normpath (join dir (staticBranch unq i))) = false := by
+  have hm' : ¬ (i.method ≠ strGET ∧ i.method ≠ strHEAD) := by
+    rintro ⟨h1, h2⟩; rcases hm with h | h <;> contradiction
+  unfold staticdir
+  simp only [hm', if_false, hmo, hd]
+  by_cases hchk : containedCheck (normpath dir) (normpath (join dir (staticBranch unq i))) = false
+  · simp [hchk]
+  · simp only [hchk]
+    constructor
+    · intro h; exact absurd h (serveChecked_outcome fs _ _).1
+    · intro h; cases h
+
+/-! non-vacuity and necessity of the hypotheses -/
+
+/-- A concrete request that is served (so the containment theorem is not vacuous). -/
+example :
+    let i : StaticIn := ⟨strGET, true, "/static".toList, "/t/root".toList, [], "index.html".toList,
+      "/static/sub/%2e%2e/f.txt".toList⟩
+    staticdir unquote (fun _ => .file) i =
+      ⟨.served "/t/root/sub/../f.txt".toList,
+       [⟨.stat, "/t/root/sub/../f.txt".toList⟩, ⟨.openR, "/t/root/sub/../f.txt".toList⟩]⟩ := by
+  decide
+
+example : IndexPlain "index.html".toList := ⟨by decide, by decide⟩
+
+/-- Without `IndexPlain` the index fallback can leave the root: the operator's `index`
+    setting is part of the trusted configuration. -/
+theorem index_dotdot_escapes :
+    let i : StaticIn := ⟨strGET, true, "/static".toList, "/t/root".toList, [], "../x".toList,
+      "/static/".toList⟩
+    ∃ a ∈ (staticdir unquote (fun _ => .dir) i).accesses,
+      ¬ (components (normpath "/t/root".toList) <+: components (normpath a.path)) := by
+  refine ⟨⟨.stat, "/t/root/../x".toList⟩, by decide, by decide⟩
+
+/-- The pre-repair string-prefix test lets a sibling directory through (F10): a regression to
+    it breaks containment. -/
+theorem strPrefix_static_counterexample :
+    containedCheckStrPrefix (normpath "/t/root".toList)
+        (normpath (join "/t/root".toList "../root-evil/secret.txt".toList)) = true ∧
+      containedCheck (normpath "/t/root".toList)
+        (normpath (join "/t/root".toList "../root-evil/secret.txt".toList)) = false ∧
+      ¬ (components (normpath "/t/root".toList) <+:
+          components (normpath (join "/t/root".toList "../root-evil/secret.txt".toList))) := by
+  decide
+
+/-! ### sessions.FileSession -/
+
+/-- `storage_path = abspath(...)` is the normal form of an absolute path. -/
+theorem sessionRoot_eq (cwd storage : Str) (hcwd : isAbs cwd = true) :
+    ∃ X, isAbs X = true ∧ sessionRoot cwd storage = normpath X := by
+  unfold sessionRoot abspath
+  by_cases h : isAbs storage = true
+  · exact ⟨storage, h, by simp [h]⟩
+  · exact ⟨join cwd storage, isAbs_join cwd storage hcwd, by simp [h]⟩
+
+/-- The repaired `_get_file_path` test: the normalised file name extends the storage path's
+    components, and strictly so unless the storage path is the file-system root. -/
+theorem sessionCheck_components (cwd X id : Str) (hX : isAbs X = true)
+    (h : sessionCheck cwd (normpath X) id = true) :
+    components (normpath X) <+: components (normpath (sessionFile (normpath X) id)) ∧
+      (components (normpath X) = [] ∨
+        components (normpath (sessionFile (normpath X) id)) ≠ components (normpath X)) := by
+  have hsp : isAbs (normpath X) = true := normpath_abs_isAbs X hX
+  have hf : isAbs (sessionFile (normpath X) id) = true := isAbs_join _ _ hsp
+  simp only [sessionCheck, abspath, hf, if_true, startsWith] at h
+  obtain ⟨t, ht⟩ := List.isPrefixOf_iff_prefix.1 h
+  by_cases he : endsSlash (normpath X) = true
+  · have := normpath_abs_endsSlash X hX he
+    rw [this]
+    exact ⟨List.nil_prefix, .inl rfl⟩
+  · have hne : normpath X ≠ [] := by intro e; simp [e, isAbs] at hsp
+    have hj : join (normpath X) [] = normpath X ++ ['/'] := by
+      simp [join, isAbs, he, hne]
+    rw [hj, List.append_assoc, List.singleton_append] at ht
+    rw [← ht, components_append_sep]
+    refine ⟨List.prefix_append _ _, ?_⟩
+    by_cases hct : components t = []
+    · left
+      have hall := components_eq_nil t hct
+      have hes : endsSlash (normpath (sessionFile (normpath X) id)) = true := by
+        rw [← ht]; exact endsSlash_append_slashes _ _ hall
+      have hnil := normpath_abs_endsSlash _ hf hes
+      rw [← ht, components_append_sep, hct, List.append_nil] at hnil
+      exact hnil
+    · right
+      intro e
+      exact hct (List.append_right_eq_self.1 e)
+
+theorem normStep_cases (abs : Bool) (S : List Str) (c : Str) :
+    normStep abs S c = S ∨ (∃ x, normStep abs S c = x :: S) ∨ (∃ t, S = t :: normStep abs S c) := by
+  unfold normStep
+  split
+  · exact .inl rfl
+  · split
+    · exact .inr (.inl ⟨c, rfl⟩)
+    · split
+      · split
+        · exact .inl rfl
+        · exact .inr (.inl ⟨dotdot, rfl⟩)
+      · rename_i t rest
+        split
+        · exact .inr (.inl ⟨dotdot, rfl⟩)
+        · exact .inr (.inr ⟨t, rfl⟩)
+
+/-- `path + '.lock'` stays below every root the path is strictly below. -/
+theorem lock_prefix (R : List Str) (f : Str) (hf : isAbs f = true)
+    (hpre : R <+: components (normpath f))
+    (hstrict : R = [] ∨ components (normpath f) ≠ R) :
+    R <+: components (normpath (f ++ lockSuffix)) := by
+  have hfl : isAbs (f ++ lockSuffix) = true := isAbs_append f _ hf
+  rw [normpath_abs_components _ hfl]
+  rw [normpath_abs_components f hf] at hpre hstrict
+  obtain ⟨init, last, h1, h2⟩ := splitSlash_append_noslash f lockSuffix (by decide)
+  rw [h2]
+  rw [h1] at hpre hstrict
+  simp only [normStack, List.foldl_append, List.foldl_cons, List.foldl_nil] at hpre hstrict ⊢
+  generalize init.foldl (normStep true) [] = S at hpre hstrict ⊢
+  have hpush : normStep true S (last ++ lockSuffix) = (last ++ lockSuffix) :: S := by
+    have h5 : (last ++ lockSuffix).length ≥ 5 := by simp [lockSuffix]
+    have n1 : last ++ lockSuffix ≠ [] := by intro e; rw [e] at h5; simp at h5
+    have n2 : last ++ lockSuffix ≠ dot := by intro e; rw [e] at h5; simp [dot] at h5
+    have n3 : last ++ lockSuffix ≠ dotdot := by intro e; rw [e] at h5; simp [dotdot] at h5
+    simp [normStep, n1, n2, n3]
+  rw [hpush, List.reverse_cons]
+  rcases normStep_cases true S last with e | ⟨x, e⟩ | ⟨t, e⟩
+  · rw [e] at hpre
+    exact hpre.trans (List.prefix_append _ _)
+  · rw [e, List.reverse_cons] at hpre hstrict
+    rcases List.prefix_concat_iff.1 hpre with h | h
+    · exfalso
+      rcases hstrict with h0 | h0
+      · rw [h0] at h; simp at h
+      · exact h0 h.symm
+    · exact h.trans (List.prefix_append _ _)
+  · have : S.reverse = (normStep true S last).reverse ++ [t] := by
+      conv => lhs; rw [e]
+      simp
+    rw [this]
+    exact (hpre.trans (List.prefix_append _ _)).trans (List.prefix_append _ _)
+
+/-- **C11, session part.**  Whatever one of the five `FileSession` methods is given as
+    session id, the path it reads, writes, locks, tests or deletes is lexically below the
+    storage directory (or the method raises 400 and does nothing). -/
+theorem C11_session_contained (cwd storage id : Str) (hcwd : isAbs cwd = true) (op : SessOp)
+    (acc : List Access) (h : sessOp op cwd (sessionRoot cwd storage) id = some acc) :
+    ∀ a ∈ acc, Under (sessionRoot cwd storage) a.path := by
+  obtain ⟨X, hX, hsp⟩ := sessionRoot_eq cwd storage hcwd
+  rw [hsp] at h ⊢
+  have habs : isAbs (normpath X) = true := normpath_abs_isAbs X hX
+  have hf : isAbs (sessionFile (normpath X) id) = true := isAbs_join _ _ habs
+  unfold sessOp getFilePath at h
+  by_cases hchk : sessionCheck cwd (normpath X) id = true
+  · obtain ⟨hpre, hstrict⟩ := sessionCheck_components cwd X id hX hchk
+    have hidem : normpath (normpath X) = normpath X := normpath_idem X
+    have hfile : Under (normpath X) (sessionFile (normpath X) id) :=
+      under_of_abs _ _ hf (by rw [hidem]; exact hpre)
+    have hlock : Under (normpath X) (sessionFile (normpath X) id ++ lockSuffix) :=
+      under_of_abs _ _ (isAbs_append _ _ hf) (by rw [hidem]; exact lock_prefix _ _ hf hpre hstrict)
+    simp only [hchk, if_true, Option.some.injEq] at h
+    intro a ha
+    rw [← h] at ha
+    cases op with
+    | exists_ =>
+      simp only at ha
+      split at ha
+      · simp at ha
+      · simp only [List.mem_singleton] at ha; rw [ha]; exact hfile
+    | load => simp only [List.mem_singleton] at ha; rw [ha]; exact hfile
+    | save => simp only [List.mem_singleton] at ha; rw [ha]; exact hfile
+    | delete => simp only [List.mem_singleton] at ha; rw [ha]; exact hfile
+    | acquireLock => simp only [List.mem_singleton] at ha; rw [ha]; exact hlock
+  · simp [hchk] at h
+
+/-- A refused session id (400) means no access at all: `sessOp` yields nothing exactly when
+    the test fails. -/
+theorem C11_session_refused_untouched (cwd sp id : Str) (op : SessOp) :
+    sessOp op cwd sp id = none ↔ sessionCheck cwd sp id = false := by
+  unfold sessOp getFilePath
+  by_cases h : sessionCheck cwd sp id = true
+  · simp [h]
+  · simp [h]
+
+example : sessOp .acquireLock "/".toList (sessionRoot "/".toList "/t/sess".toList) "abc".toList =
+    some [⟨.lock, "/t/sess/session-abc.lock".toList⟩] := by decide
+
+/-- The pre-repair string-prefix test accepts a sibling of the storage directory (F11). -/
+theorem strPrefix_session_counterexample :
+    sessionCheckStrPrefix "/".toList "/t/sess".toList "/../../sess-evil/victim".toList = true ∧
+      sessionCheck "/".toList "/t/sess".toList "/../../sess-evil/victim".toList = false ∧
+      ¬ (components "/t/sess".toList <+:
+          components (normpath (sessionFile "/t/sess".toList "/../../sess-evil/victim".toList))) := by
+  decide
 
 end CpProofs.C11
